@@ -219,7 +219,15 @@ def main(argv):
                     break
             shares = {n: 0 for n in nodes}
             for srv, _, _ in FakeClient.log:
-                shares[("%s:%s" % srv) if isinstance(srv, tuple) else srv] += 1
+                name_ = ("%s:%s" % srv) if isinstance(srv, tuple) else srv
+                if name_ not in shares:
+                    ctx.violation("HashClient built a client for a server that is not one of the configured ones (in their canonical spelling)",
+                                  {"servers": servers, "client_built_for": repr(srv), "configured": nodes})
+                    shares = None
+                    break
+                shares[name_] += 1
+            if shares is None:
+                continue
             ctx.extra.setdefault("spread_min_share", []).append(round(min(shares.values()) / len(corpus), 3))
             if min(shares.values()) == 0:
                 ctx.violation("a server received no key of a large corpus (no spread)", {"servers": servers, "shares": shares})
